@@ -108,6 +108,13 @@ def runForest (j : Json) : R (Json × Json) := do
   let mut ms : Array Json := #[]
   let mut ss : Array Json := #[]
   for oj in ops do
+    -- `pre_ops`: calls run silently before the op. Used to describe a *re-entrant* hook of the implementation run (a hook
+    -- that detaches another node while the call is in progress): for the final forest such a call equals the nested call
+    -- followed by the outer one (the mirror's hooks themselves only observe or raise)
+    let pre ← (getArr oj "pre_ops" <|> pure #[])
+    for pj in pre do
+      let pop ← opOfJson pj
+      s := (exec ⟨fl, asrt, noFaults⟩ (max 64 (s.n + 8)) pop s).f
     let op ← opOfJson oj
     let φ ← faultsOfJson oj
     -- a fuel above `s.n + B + 5` (B = one more than the last scheduled one-shot counter) is never the reason for an
